@@ -1,0 +1,28 @@
+//go:build verif
+
+/*
+ * Verification hooks for property C16 (build tag `verif`): add-only read accessors used by
+ * the /verif harness. Nothing in this file is compiled into a normal build.
+ */
+
+package compose
+
+// VerifOptionView is a deep snapshot of the routing-relevant fields of an Option.
+type VerifOptionView struct {
+	Options   []any
+	NHandlers int
+	Paths     [][]string
+}
+
+// VerifOptionSnapshot copies what extractOption reads from (and must not write to) an Option.
+func VerifOptionSnapshot(o Option) VerifOptionView {
+	v := VerifOptionView{Options: append([]any{}, o.options...), NHandlers: len(o.handler), Paths: [][]string{}}
+	for _, p := range o.paths {
+		if p == nil {
+			v.Paths = append(v.Paths, nil)
+			continue
+		}
+		v.Paths = append(v.Paths, append([]string{}, p.path...))
+	}
+	return v
+}
